@@ -51,11 +51,14 @@ pub struct RiOpts {
     pub counter_from_env: bool,
     /// draw log to replay for `random` / `resetRandom`
     pub draws: Option<Vec<DrawEv>>,
+    /// the caller keeps iterating after an error item caused by a virtual signal (the row's
+    /// driver call was made, the row is consumed; iteration goes on with the next row)
+    pub continue_after_virtual_error: bool,
 }
 
 impl Default for RiOpts {
     fn default() -> Self {
-        RiOpts { row_cap: 300, step_cap: 200_000, counter_from_env: false, draws: None }
+        RiOpts { row_cap: 300, step_cap: 200_000, counter_from_env: false, draws: None, continue_after_virtual_error: false }
     }
 }
 
@@ -625,6 +628,7 @@ impl<'a> Ri<'a> {
                                 });
                             }
                             let virtuals = self.virtuals.clone();
+                            let mut virt_err = None;
                             for (name, expr) in virtuals {
                                 let expected = self.expected_of(&cur, name, 64);
                                 self.facts.virtual_evals += 1;
@@ -637,8 +641,18 @@ impl<'a> Ri<'a> {
                                         expected,
                                         output: OutVal::Val(v),
                                     }),
-                                    Err(h) => return Err(self.hazard(h, true)),
+                                    Err(h) => {
+                                        if self.opts.continue_after_virtual_error {
+                                            virt_err = Some(h);
+                                            break;
+                                        }
+                                        return Err(self.hazard(h, true));
+                                    }
                                 }
+                            }
+                            if let Some(h) = virt_err {
+                                self.items.push(RiItem::Hazard { hazard: h, after_call: true });
+                                continue;
                             }
                         }
                     }
